@@ -156,6 +156,8 @@ func (c *cstate) OnTraffic(gc gnet.Conn) gnet.Action {
 		_, _ = gc.Writev(bs)
 	case "asyncwrite":
 		_ = gc.AsyncWrite(out, nil)
+	case "farewell":
+		// no echo: this handler only says good-bye, from inside OnClose
 	default:
 		_, _ = gc.Write(out)
 	}
@@ -165,6 +167,9 @@ func (c *cstate) OnTraffic(gc gnet.Conn) gnet.Action {
 func (c *cstate) OnClose(gc gnet.Conn, err error) gnet.Action {
 	if atomic.AddInt32(&c.closes, 1) == 1 {
 		c.closeErr = err
+		if c.mode == "farewell" {
+			_, _ = gc.Write([]byte("bye")) // may fail as well: the connection is already on its way out
+		}
 		close(c.closedCh)
 	}
 	return gnet.None
@@ -689,6 +694,12 @@ func TestC18Random(t *testing.T) {
 				}
 			}
 		}
+		if rapid.IntRange(0, 5).Draw(t, "farewell") == 0 {
+			// the first read fails, OnClose writes a good-bye, and that write fails too: still one OnClose
+			cs.F = faultSpec{Site: "(*eventloop).read/read", Errno: unix.ECONNRESET, K: 1, Class: "fatal", Setup: "traffic"}
+			cs.Second = &faultSpec{Site: "(*conn).write/write", Errno: unix.EPIPE, K: 1, Class: "fatal", Setup: "traffic"}
+			cs.EchoMode = "farewell"
+		}
 		o := runFault(cs)
 		if o.infra != "" {
 			t.Fatalf("VERIF-INFRA %s\n%s", o.infra, cs)
@@ -696,6 +707,9 @@ func TestC18Random(t *testing.T) {
 		finish(st, cs, o, seenSites)
 		if cs.Second != nil {
 			st.Label("pair_of_faults")
+		}
+		if cs.EchoMode == "farewell" {
+			st.Label("write_inside_OnClose_fails_too")
 		}
 		if len(o.fails) > 0 {
 			t.Fatalf("%s\ncase:\n%s", strings.Join(o.fails, "\n"), cs)
